@@ -52,6 +52,9 @@ THOROUGH = list(ALL_CONFIGS.keys())
 
 
 def configs_for(tier):
+    env = os.environ.get("VERIF_CONFIGS")
+    if env:
+        return [c for c in env.split(",") if c in ALL_CONFIGS]
     return QUICK if tier == "quick" else THOROUGH
 
 
@@ -105,8 +108,21 @@ def tree_hash(repo=None):
 
 def _extract_one(cfg, outdir, repo):
     flags = ALL_CONFIGS[cfg]
-    tdir = os.path.join(CACHE, "target", cfg)
+    tbase = os.environ.get("VERIF_TARGET_BASE") or os.path.join(CACHE, "target")
+    tdir = os.path.join(tbase, cfg)
     os.makedirs(tdir, exist_ok=True)
+    # one extraction at a time per target directory (concurrent checks share /verif/.cache)
+    import fcntl
+    lockf = open(os.path.join(tbase, cfg + ".lock"), "w")
+    fcntl.flock(lockf, fcntl.LOCK_EX)
+    try:
+        return _extract_locked(cfg, outdir, repo, flags, tdir)
+    finally:
+        fcntl.flock(lockf, fcntl.LOCK_UN)
+        lockf.close()
+
+
+def _extract_locked(cfg, outdir, repo, flags, tdir):
     # cargo's freshness cache would skip the wrapper: drop the member's fingerprints
     fpdir = os.path.join(tdir, "debug", ".fingerprint")
     if os.path.isdir(fpdir):
